@@ -213,4 +213,114 @@ theorem partB_spec (v : Bytes) (h : partB v = true) : Part v := by
     | none => simp [hr] at h2
     | some s1 => exact ⟨s1, rfl, by simpa [hr] using h2⟩
 
+def kCode : Bytes := [99, 111, 100, 101]
+def kMessage : Bytes := [109, 101, 115, 115, 97, 103, 101]
+def kData : Bytes := [100, 97, 116, 97]
+
+/-- the members of a marshalled `Error` object: code text, quoted message, data when present -/
+def errorMembers (c msg d : Bytes) : List (Bytes × Bytes) :=
+  [(quote kCode, c), (quote kMessage, quote msg)] ++ (if d = [] then [] else [(quote kData, d)])
+
+theorem errorJSON_eq (code : Int) (msg d : Bytes) :
+    errorJSON code msg d = objText (errorMembers (toString code).toUTF8.toList msg d) := by
+  have h1 : lit [123, 34, 99, 111, 100, 101, 34, 58] = 123 :: (quote kCode ++ [58]) := by decide
+  have h2 : lit [44, 34, 109, 101, 115, 115, 97, 103, 101, 34, 58] = 44 :: (quote kMessage ++ [58]) := by decide
+  have h3 : lit [44, 34, 100, 97, 116, 97, 34, 58] = 44 :: (quote kData ++ [58]) := by decide
+  unfold errorJSON errorMembers objText
+  rw [h1, h2, h3]
+  by_cases hd : d = [] <;> simp [hd, objBody]
+
+theorem errorLit_eq : errorLit = 44 :: (quote kError ++ [58]) := by decide
+
+theorem members_error (c msg d : Bytes) (pc : Part c) (pd : d = [] ∨ Part d) :
+    members (objText (errorMembers c msg d)) = some (errorMembers c msg d) := by
+  apply members_objText
+  · simp [errorMembers]
+  · intro kv hkv
+    simp only [errorMembers, List.mem_append, List.mem_cons, List.mem_nil_iff, or_false] at hkv
+    rcases hkv with (h | h) | h
+    · subst h; exact good_part _ _ pc
+    · subst h; exact good_quoted _ _
+    · split at h
+      · simp at h
+      · simp only [List.mem_singleton] at h; subst h
+        rcases pd with e | e
+        · rename_i hne; exact absurd e hne
+        · exact good_part _ _ e
+
+/-- the decoder accepts a marshalled `Error` object: `code` is an int32 literal, `message` a string -/
+theorem errorValueOK_marshalled (c msg d : Bytes) (pc : Part c) (hc : int32Literal c = true) (pd : d = [] ∨ Part d) :
+    errorValueOK (objText (errorMembers c msg d)) = true := by
+  have hm := members_error c msg d pc pd
+  have hnn : isNull (objText (errorMembers c msg d)) = false := by simp [isNull, objText]
+  unfold errorValueOK
+  rw [hnn]
+  simp only [Bool.false_eq_true, if_false]
+  have h123 : objText (errorMembers c msg d) = 123 :: (objBody (errorMembers c msg d) ++ [125]) := by
+    simp [objText]
+  rw [h123] at hm ⊢
+  simp only [hm]
+  have l1 : lowerAscii kCode = [99, 111, 100, 101] := by decide
+  have l2 : lowerAscii kMessage = [109, 101, 115, 115, 97, 103, 101] := by decide
+  have l3 : lowerAscii [100, 97, 116, 97] = [100, 97, 116, 97] := by decide
+  have hmsg : (decodeString (quote msg)).isSome = true := by
+    simp [decodeString, isNull_quote, unquote_quote]
+  by_cases hd : d = []
+  · simp [errorMembers, hd, unquote_quote, l1, l2, hc, hmsg]
+  · simp [errorMembers, hd, unquote_quote, l1, l2, hc, hmsg, kData, l3]
+
+/-- **an emitted error response parses back to the same id with its error object accepted** -/
+theorem parse_emitted_error (j : OutMsg) (c msg d : Bytes) (hm : j.m = []) (hid : j.id ≠ []) (hr : j.r = [])
+    (he : j.e = some (objText (errorMembers c msg d)))
+    (pid : Part j.id) (hvid : isValidID j.id = true)
+    (pc : Part c) (hc : int32Literal c = true) (pd : d = [] ∨ Part d)
+    (pe : Part (objText (errorMembers c msg d))) :
+    parseMember (memberView (toJSON j)) =
+      { v := version, id := j.id, m := [], p := [], hasE := true, r := [], extra := false, errs := [] } := by
+  let e := objText (errorMembers c msg d)
+  have htj : toJSON j = objText [(quote kJsonrpc, quote version), (quote kId, j.id), (quote kError, e)] := by
+    unfold toJSON objText
+    simp [hm, hid, hr, he, prefixLit_eq, idLit_eq, errorLit_eq, objBody, e]
+  have hmem : members (toJSON j) = some [(quote kJsonrpc, quote version), (quote kId, j.id), (quote kError, e)] := by
+    rw [htj]
+    apply members_objText
+    · simp
+    · intro kv hkv
+      simp only [List.mem_cons, List.mem_nil_iff, or_false] at hkv
+      rcases hkv with h | h | h <;> subst h
+      · exact good_quoted _ _
+      · exact good_part _ _ pid
+      · exact good_part _ _ pe
+  have hview : memberView (toJSON j) = .object [(kJsonrpc, quote version), (kId, j.id), (kError, e)] := by
+    have h123 : ∃ r, toJSON j = 123 :: r := by rw [htj]; exact ⟨_, rfl⟩
+    obtain ⟨r, hr'⟩ := h123
+    unfold memberView
+    rw [hr'] at hmem ⊢
+    simp only [hmem]
+    simp [unquote_quote]
+  rw [hview]
+  have hok : errorValueOK e = true := errorValueOK_marshalled c msg d pc hc pd
+  have hnn : isNull e = false := by simp [isNull, objText, e]
+  have k1 : kJsonrpc ≠ kId := by decide
+  have k2 : kJsonrpc ≠ kMethod := by decide
+  have k3 : kJsonrpc ≠ kParams := by decide
+  have k4 : kId ≠ kMethod := by decide
+  have k5 : kId ≠ kParams := by decide
+  have k7 : kJsonrpc ≠ kError := by decide
+  have k8 : kId ≠ kError := by decide
+  have k11 : kJsonrpc ≠ kResult := by decide
+  have k12 : kId ≠ kResult := by decide
+  have k13 : kError ≠ kMethod := by decide
+  have k14 : kError ≠ kParams := by decide
+  have k15 : kError ≠ kResult := by decide
+  have m1 : kJsonrpc ∈ knownKeys := by decide
+  have m2 : kId ∈ knownKeys := by decide
+  have m3 : kError ∈ knownKeys := by decide
+  have hv : decodeString (quote version) = some version := by
+    simp [decodeString, isNull_quote, unquote_quote]
+  unfold parseMember
+  simp [parseObject, lookupLast, scanString, scanID, scanParams, scanError, postChecks, hv,
+    k1, k2, k3, k4, k5, k7, k8, k11, k12, k13, k14, k15, m1, m2, m3, Ne.symm, hvid, hok, hnn]
+
+
 end Jrpc.Wire
